@@ -91,7 +91,7 @@ func (c *clientWrapper) Stream(ctx context.Context, req client.Request, opts ...
 		}
 		return stream, err
 	} else {
-		slotChain := sentinel.GlobalSlotChain()
+		slotChain := sentinel.BuildDefaultSlotChain()
 		slotChain.AddRuleCheckSlot(outlier.DefaultSlot)
 		slotChain.AddStatSlot(outlier.DefaultMetricStatSlot)
 		entry, blockErr := sentinel.Entry(
